@@ -11,6 +11,11 @@ every step - as a one-element pipeline)
     built (never run) | run() called, never iterated | take k results, stop and drop the iterator
     (every k from 0 to the number of results) | take all results and observe the end
 
+(and, in the container forms Sequence(*els).run(container) and Source(container, *els)(), for every
+list and tuple of 0..n ready-made values: a flow "must be iterable ... for example, a list", and the
+first element of a Source "can be ... an iterable"; reading a container is not observable, so these
+forms are judged on invocations and printing only)
+
 on an instrumented source that logs every pull and the observation of its end; user callables and
 sys.stdout log every invocation; the consumer logs every result.  The merged event trace is judged
 against the reference model of mc/ref/c02_model.py:
@@ -52,6 +57,10 @@ RULE = ("every consumer schedule (built; run() called; take k and stop for every
         "the Slice sweep adds, as one-element pipelines, Slice(stop), Slice(start, stop) and "
         "Slice(start, stop, step) for every start, stop and step of its bound (Slices that are already "
         "elements of the alphabet are not run twice); "
+        "the container forms (the flow is a list or a tuple of ready-made values, handed to Sequence.run or "
+        "standing as the first element of a Source) run the same schedules for every pipeline that contains "
+        "a logging callable or Print and are judged on invocations and printing only (laws a, b); a schedule "
+        "there is non-trivial under the same condition; "
         "schedules are distinct by construction of the enumeration; states are distinct "
         "(pipeline, form, flow, lifecycle stage, event trace) tuples")
 ASSUMPTIONS = [
@@ -66,6 +75,14 @@ ASSUMPTIONS = [
     "flows are fresh V(i) objects or (V(i), {'s': i}) pairs, n = 0..6 (thorough 0..7) values or unbounded; "
     "predicates look at the parity of i only; a pipeline that raises in the eager reference on a flow "
     "(Context on bare values) is skipped for that flow and counted",
+    "container forms: the flow is a list or a tuple (thorough: both also as the first element of a Source; "
+    "quick: Source of a list only) holding 0..3 (thorough 0..4) of the same values, every length including the "
+    "empty and the one-value container; reading a container cannot be observed, so only the work on the "
+    "values is judged there: no invocation and no printing before the first next(), each user callable "
+    "invoked on no more distinct values than its element may consume for k results, nothing after the "
+    "iterator is dropped; pipelines without a logging callable or Print are not run there (counted); no "
+    "liveness law (the container keeps its values alive), no Split block protocol from pulls, no earlier "
+    "abandoned run; the Slice sweep has no container forms (a lone Slice shows nothing there)",
     "the demand of a pipeline is the composition of the per-element demands (each element is judged as "
     "demand-driven on its own input), not the possibly smaller semantic minimum of the composed function",
     "the pulls made while *finding the end* of the results are bounded only where the statement gives a "
@@ -155,9 +172,11 @@ def _dom(tier):
     if tier == "thorough":
         return dict(alphabet=BASE + EXTRA, maxlen=3, nmax=7, kinf=8, horizon=20,
                     styles=("pair", "bare"), forms=("seq", "seq-iterable", "source", "source-iter"),
+                    cforms=("seq-list", "seq-tuple", "source-list", "source-tuple"), cnmax=4,
                     sweep=SWEEP["thorough"])
     return dict(alphabet=BASE, maxlen=2, nmax=6, kinf=6, horizon=16,
                 styles=("pair", "bare"), forms=("seq", "seq-iterable", "source", "source-iter"),
+                cforms=("seq-list", "seq-tuple", "source-list"), cnmax=3,
                 sweep=SWEEP["quick"])
 
 
@@ -168,11 +187,13 @@ def describe(tier):
     return ("%d element kinds; pipelines of 1..%d elements; forms %s; flows of 0..%d values and an "
             "unbounded flow (results determined by its first %d values, at most %d taken); values %s; "
             "schedules: built, run, take k for every k, take all and observe the end; "
+            "container forms %s with 0..%d values (pipelines with a logging callable or Print; judged on "
+            "invocations and printing); "
             "Slice sweep: %d Slices as one-element pipelines = Slice(stop), Slice(start, stop), "
             "Slice(start, stop, step) for start in %s, stop in %s, step in %s, forms %s, same flows, "
             "values and schedules"
             % (len(d["alphabet"]), d["maxlen"], "/".join(d["forms"]), d["nmax"], d["horizon"],
-               d["kinf"], "/".join(d["styles"]), nsl, list(sw["starts"]), list(sw["stops"]),
+               d["kinf"], "/".join(d["styles"]), "/".join(d["cforms"]), d["cnmax"], nsl, list(sw["starts"]), list(sw["stops"]),
                list(sw["steps"]), "/".join(sw["forms"])))
 
 
@@ -247,6 +268,30 @@ def stateless(pipeline):
     return all(ok(s) for s in pipeline)
 
 
+# Container forms: the flow is a concrete container of ready-made values (documented as legal: "flow must be
+# iterable ... for example, a list"; the first element of a Source "can be ... an iterable").  Reading a
+# container cannot be observed, so these forms are judged on the work done on the values only: invocations
+# of the user callables and printing (laws a, b: over-invocation, work-after-consumer-stopped).
+CONTAINER_FORMS = {"seq-list": list, "seq-tuple": tuple, "source-list": list, "source-tuple": tuple}
+
+OBSERVABLE_KINDS = ("call", "var", "filter", "runif", "print")
+
+
+def observable(pipeline):
+    """Does the pipeline contain an element whose work on a value is logged (user callable, Print)?"""
+    def ok(spec):
+        if spec[0] == "split":
+            return any(ok(s) for br in spec[3] for s in br)
+        return spec[0] in OBSERVABLE_KINDS
+    return any(ok(s) for s in pipeline)
+
+
+def _container(form, n, style, limit):
+    """(tracker of the values, container holding n fresh values) for a container form."""
+    tracker = M.Source(n, style, [], limit)
+    return tracker, CONTAINER_FORMS[form](tracker)
+
+
 class _Iterable(object):
     """A flow that is an iterable, not an iterator: a container-like object that generates its values
     lazily (here: hands out the instrumented source)."""
@@ -268,10 +313,18 @@ def run_schedule(pipeline, form, n, style, stage, k, limit, bound_live, warmup=F
            "live_excess": None, "after_close": None}
     try:
         els = [M.build_element(spec, log, j + 1) for j, spec in enumerate(pipeline)]
-        src = M.Source(n, style, log, limit)
+        cont = form in CONTAINER_FORMS
+        if cont:
+            # nothing is logged while the container is filled; it is complete before the pipeline is built
+            src, flow = _container(form, n, style, limit)
+        else:
+            src = M.Source(n, style, log, limit)
         holder = [src]
-        if form in ("seq", "seq-iterable"):
+        if form in ("seq", "seq-iterable", "seq-list", "seq-tuple"):
             seq = lena.core.Sequence(*els)
+        elif cont:
+            # the first element of the Source is the container itself
+            seq = lena.core.Source(flow, *els)
         elif form == "source-iter":
             # the first element of the Source is the (one-shot) iterator itself, not a callable
             seq = lena.core.Source(src, *els)
@@ -308,7 +361,8 @@ def run_schedule(pipeline, form, n, style, stage, k, limit, bound_live, warmup=F
         if stage != "built":
             try:
                 it = (seq.run(src) if form == "seq" else
-                      seq.run(_Iterable(src)) if form == "seq-iterable" else seq())
+                      seq.run(_Iterable(src)) if form == "seq-iterable" else
+                      seq.run(flow) if form in ("seq-list", "seq-tuple") else seq())
             except (M.Runaway, Exception) as e:  # noqa: run() itself worked on the flow and failed
                 it = iter(())
                 obs["status"] = "run-call-" + ("runaway" if isinstance(e, M.Runaway) else "raised " + type(e).__name__)
@@ -340,7 +394,7 @@ def run_schedule(pipeline, form, n, style, stage, k, limit, bound_live, warmup=F
                     obs["status"] = "runaway"
                 except Exception as e:  # noqa: the eager reference did not raise
                     obs["status"] = "raised " + type(e).__name__
-            obs["pulls"], obs["end"], obs["events"] = src.i, src.ends > 0, src.events()
+            obs["pulls"], obs["end"], obs["events"] = (0, False, 0) if cont else (src.i, src.ends > 0, src.events())
             mark = len(log)
             try:
                 del it
@@ -349,7 +403,7 @@ def run_schedule(pipeline, form, n, style, stage, k, limit, bound_live, warmup=F
             if len(log) != mark:
                 obs["after_close"] = log[mark:]
         else:
-            obs["pulls"], obs["end"], obs["events"] = src.i, src.ends > 0, src.events()
+            obs["pulls"], obs["end"], obs["events"] = (0, False, 0) if cont else (src.i, src.ends > 0, src.events())
     finally:
         M.SINK.log = None
     obs["log"] = log
@@ -379,10 +433,13 @@ def judge_combo(res, ctx, pipeline, form, n, style, dom, only=None):
     except M.RefMismatch:
         res.count("skipped_split_model_differs_from_eager_split")
         return
-    bound_live = M.live_bound(pipeline)
+    cont = form in CONTAINER_FORMS
+    # a container keeps all its values alive by itself, and its pulls are not seen: no liveness law,
+    # no block protocol, no earlier abandoned run there
+    bound_live = END if cont else M.live_bound(pipeline)
     limit = dom["horizon"] + 8
-    sd = _split_direct(pipeline)
-    free_of_state = stateless(pipeline)
+    sd = None if cont else _split_direct(pipeline)
+    free_of_state = stateless(pipeline) and not cont
     for stage, k in _schedules(pipeline, tables, n, dom):
         if only is not None and (stage, k) != tuple(only[:2]):
             continue
@@ -416,7 +473,8 @@ def _judge_schedule(res, ctx, case, pipeline, form, n, style, dom, stage, k, lim
         obs = run_schedule(pipeline, form, n, style, stage, k, limit, bound_live, warmup=warm)
         log = obs["log"]
         strict = bound < END
-        res.case(nontrivial=(stage == "take" and k >= 1 and strict),
+        cont = form in CONTAINER_FORMS
+        res.case(nontrivial=(stage == "take" and k >= 1 and strict and (not cont or observable(pipeline))),
                  outcome=(obs.get("pulls"), obs.get("end"), obs["taken"], len(log), obs["status"]))
         res.transitions += sum(1 for e in log if e in ("Y", "E", "X") or (type(e) is tuple and e[0] == "p"))
         res.count("callable_invocations", sum(1 for e in log if type(e) is tuple and e[0] == "c"))
@@ -425,11 +483,15 @@ def _judge_schedule(res, ctx, case, pipeline, form, n, style, dom, stage, k, lim
         if stage in ("take", "end"):
             res.traces += 1
             res.count("schedules_with_finite_demand" if strict else "schedules_demanding_the_whole_flow")
+            if cont:
+                res.count("schedules_on_a_container_flow_judged_on_calls_and_prints_only")
         res.sample(case, 3)
 
         def viol(law, observed, expected, **extra):
             cause = {"law": law, "element": _culprit(ctx, pipeline, form, n, style, dom, law)}
             cause.update(extra)
+            if cont:
+                cause["flow"] = "container"
             res.violation(case, observed, expected, cause,
                           note="pipeline kinds: %s" % " -> ".join(_pipe_sig(pipeline)))
 
@@ -459,7 +521,7 @@ def _judge_schedule(res, ctx, case, pipeline, form, n, style, dom, stage, k, lim
             else:
                 res.count("lenient_nontermination_not_judged")
             continue
-        if strict:
+        if strict and not cont:
             res.count("moments_where_excess_observable")
             if obs["events"] > bound:
                 viol("overpull", {"pulls": obs["pulls"], "end_observed": obs["end"], "results_taken": k},
@@ -477,9 +539,12 @@ def _judge_schedule(res, ctx, case, pipeline, form, n, style, dom, stage, k, lim
             if allowed < END and len(per[label]) > allowed:
                 res.violation(case, {"callable": repr(label), "distinct_values": len(per[label])},
                               {"max": allowed},
-                              {"law": "over-invocation", "element": M.kind_sig(pipeline[j - 1])},
+                              dict({"law": "over-invocation", "element": M.kind_sig(pipeline[j - 1])},
+                                   **({"flow": "container"} if cont else {})),
                               note="pipeline kinds: %s" % " -> ".join(_pipe_sig(pipeline)))
         # (c) liveness
+        if cont:
+            continue
         res.count("liveness_moments_checked", obs["taken"])
         if obs["pulls"] > bound_live:
             res.count("liveness_schedules_where_pulled_exceeds_bound")
@@ -524,10 +589,19 @@ def run_shard(p, tier):
     sys.stdout = M.SINK
     try:
         forms = dom["sweep"]["forms"] if p.get("sweep") else dom["forms"]
+        cforms = () if p.get("sweep") else dom["cforms"]
         for pipeline in _pipelines(p, dom, tier):
+            seen = observable(pipeline)
             for style in dom["styles"]:
                 for form in forms:
                     for n in list(range(dom["nmax"] + 1)) + [None]:
+                        judge_combo(res, ctx, pipeline, form, n, style, dom)
+                for form in cforms:
+                    if not seen:
+                        # no user callable, no Print: nothing but the results can be observed there
+                        res.count("container_forms_skipped_nothing_observable")
+                        continue
+                    for n in range(dom["cnmax"] + 1):
                         judge_combo(res, ctx, pipeline, form, n, style, dom)
     finally:
         sys.stdout = old
@@ -553,14 +627,18 @@ def replay(case):
 
 
 LEVEL_TEXT = ("explicit-state exploration of consumer schedules: every pipeline of 1..2 (thorough 1..3) "
-              "elements over 21 (33) streaming element kinds x 2 forms x 2 value styles x flows of 0..6 (0..7) "
-              "values and an unbounded flow is executed on the real lena code once per consumer schedule "
+              "elements over 23 (37) streaming element kinds x 4 forms x 2 value styles x flows of 0..6 (0..7) "
+              "values and an unbounded flow - and, for pipelines with a logging callable or Print, x 3 (4) "
+              "container forms (the flow is a list / tuple of 0..3 (0..4) values given to Sequence.run or as "
+              "the first element of a Source; judged on invocations and printing) - is executed on the real lena code once per consumer schedule "
               "(built, run() called, take k and stop for every k, observe the end) and its pull/call/yield "
               "event trace is compared with the demand computed by a brute-force determinacy model; in addition the "
               "argument space of Slice (3 ways of writing x 7 (8) starts x 8 (9) stops x 3 (6) steps, all sign "
               "classes) is swept as one-element pipelines under the same flows and schedules")
 LEVEL_NOTE = ("holds for the enumerated alphabet and bounds only; the demand of a pipeline is the composition "
               "of per-element semantic demands; pulls made while finding the end of the results are bounded only "
-              "behind non-negative Slices; liveness counts original source objects with one in flight per element")
-TECHNIQUE = ("exhaustive enumeration of (pipeline, flow, consumer stop point) with instrumented source, callables "
-             "and stdout; reference = eager element functions + brute-force determinacy over continuations")
+              "behind non-negative Slices; liveness counts original source objects with one in flight per element; "
+              "on container flows (list, tuple) only invocations of user callables and printing are observed, not "
+              "the reading of the container")
+TECHNIQUE = ("exhaustive enumeration of (pipeline, flow, consumer stop point) with instrumented source (or a plain "
+             "list / tuple as the flow), callables and stdout; reference = eager element functions + brute-force determinacy over continuations")
